@@ -4,16 +4,17 @@ PROP = dict(
     title="Immutable bindings cannot be assigned, and assignment never crashes",
     lean_module="AbraProofs.Properties.C20",
     required_theorems=["C20_let_rejected", "C20_var_accepted", "C20_other_forms", "C20_store_takes_effect",
-                       "C20_assign_total_partial", "C20_assign_total_counterexample",
-                       "C20_capture_rejected_counterexample", "C20_crash_iff"],
+                       "C20_capture_rejected", "C20_assign_total", "C20_table",
+                       "C20_assign_total_old_counterexample", "C20_old_crash_iff", "C20_old_agrees"],
     harness_bin="c20",
     mismatch_is_violation=True,
-    rule="the full table: 20 binding forms (let, var, destructured let/var, for variable plain/destructured, match binding plain/"
+    rule="the full table: 32 binding forms (let, var, destructured let/var, for variable plain/destructured, match binding plain/"
          "variant payload, function parameter, lambda parameter, array element of a let array / of a var array / nested, struct "
-         "field plain / nested / of an array element, function name, and let / for / match bindings captured by a lambda and "
-         "assigned inside it) x 6 operators x 3 contexts (top level, function body, lambda body) x integer operand pairs (6 fixed "
-         "incl. overflow and zero divisor + 2 (quick) / 40 (thorough) seeded) and 2 float pairs; each program compiled and run "
-         "for real, the assigned location printed afterwards; captured var/parameter assignment (D20) only in the replay step; "
+         "field plain / nested / of an array element, function name; captured let / var / destructured var / for / match / "
+         "function parameter / lambda parameter assigned inside a lambda, a nested lambda or a task; a nested lambda's own local; "
+         "element and field of a captured object) x 6 operators x 3 contexts (top level, function body, lambda body; captured "
+         "forms at top level) x integer operand pairs (6 fixed incl. overflow and zero divisor + 2 (quick) / 40 (thorough) "
+         "seeded) and 2 float pairs; each program compiled and run for real, the assigned location printed afterwards; "
          "distinct = distinct (form, operator, operands); non-trivial = every case (each one decides accept/diagnostic)",
     nontrivial=lambda req, imp: True,
     trusted_base=COMMON_TB + [
@@ -21,20 +22,16 @@ PROP = dict(
         "which variables a lambda captures is decided by the generator's program shapes, not by a model of collect_captures",
     ],
     assumptions=[
-        "D20 (recorded finding): assignment to a captured `var`/parameter inside the capturing lambda panics the compiler; the "
-        "full totality statement is false of the code as it is (proved negation), the _partial theorem excludes exactly these targets",
         "float operands: only the decision and the IEEE result computed by Rust are compared (no float arithmetic in the model)",
     ],
     design_ref="DESIGN.md §6 C20",
     level_text="Decision table theorems over every assignment target (binding form, captured or not, element, field, non-variable) "
-               "and operator about a model of the checker's Assign case, record_pat_mutability and the compiler's store: let is "
-               "rejected, var/element/field accepted and the emitted store leaves exactly the operator's value; totality is "
-               "proved outside the recorded finding D20 and its negation is proved with the witness. Tied to /repo on every run "
-               "by compiling and running the whole table as real programs.",
-    level_note="C20_assign_total holds only as C20_assign_total_partial (hypothesis: the target is not a captured variable that "
-               "the checker accepts); the negation of the full statement is C20_assign_total_counterexample (D20, known finding, "
-               "replayed on every run). The store lemma covers variable slots (F0); element/field stores are covered by the "
-               "correspondence only.",
+               "and operator about a model of the checker's Assign case (incl. the captured-variable test of fdfd074), "
+               "record_pat_mutability and the compiler's store: let and captured variables are rejected, var/element/field accepted "
+               "and the emitted store leaves exactly the operator's value; the table is total (never a crash). Tied to /repo on "
+               "every run by compiling and running the whole table as real programs.",
+    level_note="The store lemma covers variable slots (F0); element/field stores are covered by the correspondence only. The table "
+               "of the code before the D20 repair is kept as oldDecision with its proved counterexample to totality.",
     technique="Lean 4 theorems (case analysis, small stack-machine lemma) about a hand-written model + differential correspondence "
               "against the real front end and VM",
     exhaustive=lambda tier: False,
